@@ -46,10 +46,23 @@ Proof. destruct o, v; cbn; discriminate. Qed.
 Lemma str_op_np ci f a b : str_op ci f a b <> Panic.
 Proof. unfold str_op. destruct a, b; cbn; try discriminate. Qed.
 
+Lemma float_arith_np f a b : float_arith f a b <> Panic.
+Proof. unfold float_arith. destruct (float_pair a b) as [[x y]|]; discriminate. Qed.
+
+Lemma eq_values_np a b : eq_values a b <> Panic.
+Proof.
+  destruct a, b; cbn [eq_values]; try discriminate;
+    destruct (float_pair _ _) as [[x y]|]; discriminate.
+Qed.
+
 Lemma eval_bin_np o a b : eval_bin o a b <> Panic.
 Proof.
   destruct o; cbn [eval_bin]; try apply str_op_np;
-    destruct a as [n|x|p], b as [m|y|q]; cbn; try discriminate;
+    try (destruct (eq_values a b) eqn:E; cbn [bind]; try discriminate; exfalso; exact (eq_values_np _ _ E));
+    destruct a as [n|x|p|fa], b as [m|y|q|fb];
+    try apply float_arith_np;
+    try (destruct (float_pair _ _) as [[? ?]|]; discriminate);
+    unfold num_op; cbn [unwrap_number bind]; try discriminate;
     repeat match goal with |- context [if ?c then _ else _] => destruct c end; discriminate.
 Qed.
 
@@ -156,10 +169,10 @@ Section NoScan.
       destruct o; try discriminate; destruct x, y; cbn; try discriminate;
         repeat match goal with |- context [if ?c then _ else _] => destruct c end; discriminate.
     - cbn [e_ext enM]. destruct (nth_error ext i) as [v|]; [|discriminate].
-      destruct v; [discriminate|discriminate|discriminate].
+      destruct v; discriminate.
     - destruct (nth_error stack i) as [v|] eqn:E; [|discriminate].
       apply nth_error_In in E. unfold stack_ok in Hs. rewrite Forall_forall in Hs. specialize (Hs v E).
-      destruct v; [discriminate|discriminate|discriminate].
+      destruct v; discriminate.
   Qed.
 
   Definition Pns (e : expr) : Prop :=
@@ -308,6 +321,8 @@ Section NoScan.
       cbn [e_ext en0 enM]. apply relg_refl. destruct (nth_error ext i); discriminate.
     - (* EBound *)
       apply relg_refl. destruct (nth_error stack i); discriminate.
+    - (* EDouble *)
+      apply relg_refl; discriminate.
   Qed.
 End NoScan.
 
